@@ -44,10 +44,25 @@ def tree():
     return _fx["tree"]
 
 
+def user_model(name):
+    """User-built predicate models (the spec's u_or / u_not_ac / u_fwd), built with cogent3's predicate algebra."""
+    from cogent3.evolve.ns_substitution_model import NonReversibleNucleotide
+    from cogent3.evolve.predicate import MotifChange
+    from cogent3.evolve.substitution_model import TimeReversibleNucleotide
+
+    if name == "user:TimeReversibleNucleotide":
+        p1 = (MotifChange("A", "G") | MotifChange("C", "T")).aliased("u_or")
+        p2 = (~MotifChange("A", "C")).aliased("u_not_ac")
+        return TimeReversibleNucleotide(predicates=[p1, p2], name="user", recode_gaps=True)
+    if name == "user:NonReversibleNucleotide":
+        return NonReversibleNucleotide(predicates=[MotifChange("A", "G", forward_only=True).aliased("u_fwd")], name="user_ns")
+    raise ValueError(name)
+
+
 def make_lf(rec, **kw):
     from cogent3 import get_model
 
-    sm = get_model(rec["name"], **kw)
+    sm = user_model(rec["name"]) if rec["name"].startswith("user:") else get_model(rec["name"], **kw)
     lf = sm.make_likelihood_function(tree())
     pi = {word(w): float(frac(v)) for w, v in rec["pi"]}
     lf.set_motif_probs(pi)
